@@ -1,1 +1,89 @@
 //! Hooks owned by property C01 (feature `verif-hooks`).
+//!
+//! The control-flow skeleton of every MIR item — block labels as numbers,
+//! instructions reduced to `Other | Jump | Switch | Return` — before and after
+//! `Mir::eliminate_dead_code`, and of the MIR the real pipeline produces.
+//! The harness feeds the "before" skeleton to the Lean model of the pass and
+//! compares the result with "after".
+
+use crate::{FileTree, NoCtx, RotoReport, Runtime, mir};
+
+#[derive(Clone, Debug, PartialEq, Eq)]
+pub enum CfgInstr {
+    Other,
+    Jump(usize),
+    Switch(Vec<usize>, Option<usize>),
+    Return,
+}
+
+#[derive(Clone, Debug, PartialEq, Eq)]
+pub struct CfgBlock {
+    pub label: usize,
+    pub instrs: Vec<CfgInstr>,
+}
+
+#[derive(Clone, Debug, PartialEq, Eq)]
+pub struct CfgItem {
+    pub name: String,
+    pub blocks: Vec<CfgBlock>,
+}
+
+pub(crate) fn cfg_of(mir: &mir::Mir) -> Vec<CfgItem> {
+    mir.items
+        .iter()
+        .map(|item| CfgItem {
+            name: item.name.to_string(),
+            blocks: item
+                .blocks
+                .iter()
+                .map(|b| CfgBlock {
+                    label: b.label.verif_index(),
+                    instrs: b
+                        .instructions
+                        .iter()
+                        .map(|i| match i {
+                            mir::Instruction::Jump(l) => {
+                                CfgInstr::Jump(l.verif_index())
+                            }
+                            mir::Instruction::Switch {
+                                examinee: _,
+                                branches,
+                                default,
+                            } => CfgInstr::Switch(
+                                branches
+                                    .iter()
+                                    .map(|(_, l)| l.verif_index())
+                                    .collect(),
+                                default.map(|l| l.verif_index()),
+                            ),
+                            mir::Instruction::Return { .. } => CfgInstr::Return,
+                            _ => CfgInstr::Other,
+                        })
+                        .collect(),
+                })
+                .collect(),
+        })
+        .collect()
+}
+
+/// The three skeletons of one program.
+pub struct Cfgs {
+    /// straight out of `Lowerer::tree`, before dead-code elimination
+    pub before: Vec<CfgItem>,
+    /// the same MIR after `eliminate_dead_code`
+    pub after: Vec<CfgItem>,
+    /// what `TypeChecked::lower_to_mir` (the real pipeline stage) produces
+    pub pipeline: Vec<CfgItem>,
+}
+
+/// Parse, type check, lower; report the CFG skeletons.
+pub fn cfgs(tree: FileTree, rt: &Runtime<NoCtx>) -> Result<Cfgs, RotoReport> {
+    let checked = tree.parse()?.typecheck(rt)?;
+    let (before, after) = checked.verif_c01_cfgs();
+    let pipeline = checked.lower_to_mir().verif_c01_cfg();
+    Ok(Cfgs {
+        before,
+        after,
+        pipeline,
+    })
+}
